@@ -171,6 +171,9 @@ fixed_degree_isogeny(theta_chain_t *isog,
                ibz_bitsize(&tmp),
                ibz_bitsize(u),
                length);
+        ibz_finalize(&two_pow);
+        ibz_finalize(&tmp);
+        quat_alg_elem_finalize(&theta);
         return 0;
     }
     quat_lideal_create_from_primitive(lideal, &theta, u, &MAXORD_O0, &QUATALG_PINFTY);
@@ -788,7 +791,7 @@ dim2id2iso_ideal_to_isogeny_clapotis(theta_chain_t *isog,
 
     if (!found) {
         printf("didn't find uv \n");
-        return 0;
+        goto cleanup;
     }
 
     assert(ibz_get(d1) % 2 == 1 && ibz_get(d2) % 2 == 1);
